@@ -5,7 +5,12 @@ closed by `decide`); (2) the REAL iora::core::ThreadPool runs under DetSched (ha
 trace of every scheduling step is replayed by the Lean acceptor (Driver/Tp.lean): every pthread operation of every thread must be the
 operation the model thread has pending, enabled, with the same detail (created thread id, woken sleeper, number woken, join target),
 and the snapshots of the real object's members taken at the harness' yields must equal the model's state; (3) implementation-only
-monitors evaluate the property itself on every run."""
+monitors evaluate the property itself on every run (per epoch when the pool is restarted).
+
+Review round 1 (FC09a/b/c): several controller threads, GRACEFUL mode, restart (reset() + start()), maxSize 0, a throwing error
+handler are generated, modelled and replayed; a harness chunk that exceeds its time limit raises (machinery, exit 2); a drain(0)
+polling marathon that exhausts the step budget is re-run with a bounded drain; an unfairly completed tail that starves the owner of
+a shutdown behind a polling controller is counted (`starved_tails`), not judged."""
 import json, os, re
 from concurrent.futures import ThreadPoolExecutor
 from vlib.core import Ctx, ddmin, VERIF
@@ -14,11 +19,17 @@ ID = "C09"
 MODULES = ["IoraModel.Props.C09"]
 OBLIGATIONS = [
     {"id": "C09_P1", "theorem": "Iora.C09.P1_conservation", "kind": "proved",
-     "statement": "every schedule: accepted = queued + in hand + finished and started = running + finished, per task id (nothing lost, duplicated or started more often than accepted)"},
+     "statement": "every schedule: accepted = queued + in hand + finished and started = running + finished, per task id (nothing lost, duplicated or started more often than accepted) (no restart)"},
+    {"id": "C09_B", "theorem": "Iora.C09.accepted_iff_pushed_once", "kind": "proved",
+     "statement": "every schedule, every configuration: result id = accepted <-> accCnt id = 1, and accCnt id <= 1 (an id is decided once, by the lock step of its own call)"},
     {"id": "C09_P2", "theorem": "Iora.C09.P2_returns_only_when_finished", "kind": "proved",
-     "statement": "every schedule: once stop() (ok), shutdown() or the destructor has returned, the queue is empty, no task is in hand, every worker has left and every accepted submission was started and finished exactly once (mode != DETACHED, maxSize >= 1)"},
+     "statement": "every schedule, ANY NUMBER of controller threads calling drain/stop/shutdown concurrently: once stop() (ok), shutdown() (also of a caller that found _shutdown already set) or the destructor has returned, the queue is empty, no task is in hand, every worker has left, result id = accepted -> startCnt id = 1 and doneCnt id = 1, and every other id has startCnt = doneCnt = 0 (mode != DETACHED, no restart)"},
     {"id": "C09_P3", "theorem": "Iora.C09.P3_no_start_after_return", "kind": "proved",
-     "statement": "every schedule and every continuation: after such a return no task body starts"},
+     "statement": "every schedule and every continuation: after such a return (of any controller thread) no task body starts"},
+    {"id": "C09_A1", "theorem": "Iora.C09.one_shutdown_owner", "kind": "proved",
+     "statement": "every schedule: at most one controller thread is between setting _shutdown and returning from shutdown()/the destructor (only it runs a join loop)"},
+    {"id": "C09_A2", "theorem": "Iora.C09.complete_implies_quiesced", "kind": "proved",
+     "statement": "every schedule: _shutdownComplete is set only after a join loop has completed (what a second shutdown() caller waits for)"},
     {"id": "C09_P5a", "theorem": "Iora.C09.P5_exit_decision_with_empty_queue", "kind": "proved",
      "statement": "a worker enters its exit path only in a critical section in which the queue is empty"},
     {"id": "C09_P5a2", "theorem": "Iora.C09.P5_exit_decision_after_wait", "kind": "proved",
@@ -30,7 +41,11 @@ OBLIGATIONS = [
     {"id": "C09_REG", "theorem": "Iora.C09.worker_registered", "kind": "proved",
      "statement": "every schedule: a worker that has not returned is in _threads, or being joined, or self-removed and about to return (no worker runs tasks unregistered)"},
     {"id": "C09_P6", "theorem": "Iora.C09.P6_workers_le_max", "kind": "proved",
-     "statement": "every schedule: |_threads| <= maxSize (initialSize <= maxSize)"},
+     "statement": "every schedule, every initialSize/maxSize (0 included): |_threads| <= _maxSize = effectiveMaxSize(initialSize, maxSize)"},
+    {"id": "C09_F", "theorem": "Iora.C09.P6_live_worker_threads_le_max", "kind": "proved",
+     "statement": "every schedule: shutdown = false -> countP liveWorker thr <= _maxSize (worker THREADS that have neither removed themselves from _threads nor returned)"},
+    {"id": "C09_E", "theorem": "Iora.C09.effMax_ge", "kind": "proved",
+     "statement": "the clamp: 1 <= _maxSize, initialSize <= _maxSize, maxSize <= _maxSize"},
     {"id": "C09_P4", "theorem": "Iora.C09.P4_refusal_reasons", "kind": "proved",
      "statement": "a submission is refused only when _accepting is false (draining), _shutdown is set, or the queue is at capacity; it is accepted only when none of these holds"},
     {"id": "C09_SK1", "theorem": "Iora.C09.skel_enqueueImpl", "kind": "conformance",
@@ -42,18 +57,26 @@ OBLIGATIONS = [
      "statement": "worker loop: wait, both exit decisions and pop in one critical section; every return under _mutex"},
     {"id": "C09_SK5", "theorem": "Iora.C09.skel_worker_hooks", "kind": "conformance", "statement": "only hook in the worker: tp:popped (or none)"},
     {"id": "C09_SK6", "theorem": "Iora.C09.skel_shutdown", "kind": "conformance",
-     "statement": "shutdown()/phase 1 set _shutdown under _mutex, notify_all after unlock; join loops erase under _mutex, join outside; phases 1..5"},
+     "statement": "shutdown(): already-shut-down path unlocks, polls _shutdownComplete, then returns; owner sets _shutdown under _mutex, notify_all after unlock, stores _shutdownComplete after the join loop; join loops erase under _mutex, join outside; phase 4 detaches exactly under `mode == ShutdownMode::DETACHED`; phases 1..5"},
+    {"id": "C09_SK7", "theorem": "Iora.C09.skel_restart", "kind": "conformance",
+     "statement": "reset() empties _tasks / clears _threads under _mutex; start() clears _shutdown and _shutdownComplete under _mutex, opens _accepting, spawns with loop condition `i < workerCount`, workerCount = _workerScaling ? _initialSize : _maxSize"},
+    {"id": "C09_SK8", "theorem": "Iora.C09.skel_ctor", "kind": "conformance",
+     "statement": "constructor: same worker count and loop condition; default shutdown mode IMMEDIATE; _maxSize initialised by effectiveMaxSize(initialSize, maxSize) whose body is the clamp of Cfg.effMax"},
 ]
 ANCHOR_FILES = ["include/iora/core/thread_pool.hpp"]
 HARNESS = "harness/c09_tp.cpp"
 DETSCHED = os.path.join(VERIF, "harness", "detsched", "detsched.cpp")
+MAX_TRACE = 30000     # events of one run kept for the replay in the Lean acceptor (the longest ordinary run has < 6000)
 
 
 # ------------------------------------------------------------------------------------------------ case generation
 def gen_case(rng, hook, cat=None):
     """One scripted scenario + scheduling parameters.  Categories: mixed (mostly valid), tight (limits: queue 1-3, max = initial,
-    initial 0), idle (tiny idle time-out: idle exits race submissions), race (controller ops in the middle of submissions),
-    late (submissions after stop/shutdown: refusals), nested (tasks that submit tasks that submit)."""
+    initial 0, maxSize 0 / below initialSize), idle (tiny idle time-out: idle exits race submissions), race (controller ops in the
+    middle of submissions), late (submissions after stop/shutdown: refusals), nested (tasks that submit tasks that submit), multi
+    (1-3 additional controller threads calling drain/stop/shutdown/submit concurrently), restart (stop, reset() + start(), more work,
+    stop again; sometimes with submitters or a second controller running across the restart).  The shutdown mode is IMMEDIATE (2/3)
+    or GRACEFUL (1/3); task bodies return, throw, or throw into an error handler that throws itself."""
     cat = cat or rng.choice(["mixed", "mixed", "tight", "idle", "race", "race", "late", "nested", "multi", "multi", "restart"])
     init = rng.choice([0, 1, 1, 2, 3])
     mx = max(1, init) + rng.choice([0, 0, 1, 2])
@@ -122,11 +145,23 @@ def gen_case(rng, hook, cat=None):
             ops.append("stop")
         if rng.chance(1, 6):
             ops.insert(rng.range(0, len(ops) - 1), "rs")
+        if rng.chance(1, 3):
+            # submitters that keep submitting WHILE the pool is restarted (refused until start() opens _accepting; FC09c)
+            for _ in range(rng.range(1, 2)):
+                ops.append("s=" + ",".join("%s:%d" % (rng.choice("ettr"), rng.below(nb)) for _ in range(rng.range(3, 8))))
         ops.append("rs")
         for _ in range(rng.range(1, 4)):
             ops.append(rng.choice(["a=%s:%d" % (rng.choice("etr"), rng.below(nb)), "s=" + acts(5)]))
         ops.append("j")
+        conc = rng.chance(1, 3)
+        if conc:
+            # a second controller calls shutdown()/stop() concurrently with thread 0 in the RESTARTED pool (start() must have
+            # cleared _shutdownComplete, or this caller returns early)
+            ctls.append("ctl " + rng.choice(["sd", "sd", "stop"]))
+            ops.append("c=%d" % (len(ctls) - 1))
         ops.append(rng.choice(["stop", "sd", "stop"]))
+        if conc:
+            ops.append("j")
         if rng.chance(1, 3):
             ops += ["rs", "a=e:%d" % rng.below(nb), "stop"]
     if rng.chance(1, 3):
@@ -147,6 +182,10 @@ def run_harness(ctx, hb, cases):
     for c in cases:
         lines += c["lines"] + [c["run"]]
     out, rc, err = ctx.run_lines([hb], lines, timeout=900)
+    if rc == -999:
+        # the chunk did not finish within the time limit of the check machinery: not an observation about the pool
+        raise RuntimeError("harness chunk of %d cases exceeded 900 s (machinery limit, not a result); first case: %s | %s"
+                           % (len(cases), cases[0]["lines"], cases[0]["run"]))
     res = []
     i = 0
     hook = None
@@ -159,8 +198,11 @@ def run_harness(ctx, hb, cases):
             l = out[i]
             i += 1
             if l.startswith("ev ") or l.startswith("end |"):
-                a, _, b = l.partition(" | ")
-                r["ev"].append((a, b))
+                if len(r["ev"]) < MAX_TRACE:
+                    a, _, b = l.partition(" | ")
+                    r["ev"].append((a, b))
+                else:
+                    r["truncated"] = True      # a polling marathon (tens of thousands of steps): judged by the monitors, not replayed
             elif l.startswith("mon "):
                 r["mon"] = l
             elif l.startswith("report "):
@@ -213,7 +255,7 @@ def run_model(ctx, cases, results, width=8, chunk=150):
             a = len(lines)
             lines += c["lines"]
             b = len(lines)
-            if r is not None:
+            if r is not None and not r.get("truncated"):
                 lines += [e[0] for e in r["ev"]]
             spans.append((a, b, len(lines)))
         out, rc, err = ctx.run_lines(argv, lines, timeout=900)
@@ -263,10 +305,11 @@ def parse_mon(l):
             a, _, b = x.partition("@")
             mlog.append((int(a), int(b)))
     subtids = [int(x) for x in d["subtids"].split(",")] if d.get("subtids", "-") != "-" else []
+    rsbegin = [int(x) for x in d["rsbegin"].split(",")] if d.get("rsbegin", "-") != "-" else []
     # `problems=` is the last key and may contain spaces
     prob = l.split(" problems=", 1)[1] if " problems=" in l else "-"
     return {"max": int(d["max"]), "seen": int(d["maxThreadsSeen"]), "samples": int(d.get("samples", "0")), "early": int(d["futureEarly"]),
-            "subs": subs, "tasks": tasks, "futures": fut, "mlog": mlog, "subtids": subtids, "problems": prob}
+            "subs": subs, "tasks": tasks, "futures": fut, "mlog": mlog, "subtids": subtids, "rsbegin": rsbegin, "problems": prob}
 
 
 def body_throws(case, ix):
@@ -286,7 +329,8 @@ def monitor(case, r):
         return ["CRASH: the harness died (%s)" % r["crash"]]
     status = r["done"].split()[1]
     if status != "ok":
-        return ["DEADLOCK: the run did not complete: %s %s" % (status, (r["report"] or "")[:300])]
+        what = "DEADLOCK" if status == "deadlock" else ("LIVELOCK (step limit without drain(0))" if status == "steplimit" else "INCOMPLETE")
+        return ["%s: the run did not complete: %s %s" % (what, status, (r["report"] or "")[:300])]
     m = parse_mon(r["mon"])
     if m["problems"] != "-":
         fails.append("MON: " + m["problems"].strip())
@@ -298,7 +342,7 @@ def monitor(case, r):
     peak = 0
     sub = set(m["subtids"])
     workers = set()
-    for a, _ in r["ev"]:
+    for a, _ in ([] if r.get("truncated") else r["ev"]):
         f = a.split()
         if f[0] != "ev":
             continue
@@ -341,8 +385,9 @@ def monitor(case, r):
     if m["early"]:
         fails.append("P4: a future was ready before its task's body had finished (%d observations)" % m["early"])
     # returns: only after every accepted task OF THE SAME EPOCH has finished; nothing starts afterwards until a restart.
-    # An epoch ends at a successful restart (code 10); submitters are joined before a restart, so call ticks partition cleanly.
-    restarts = sorted(q for code, q in m["mlog"] if code == 10)
+    # An epoch ends where a successful restart BEGINS (tick taken before reset()): between stop() and that point the pool refuses
+    # everything, and a submission accepted while start() is still spawning workers belongs to the new epoch.
+    restarts = sorted(m["rsbegin"])
 
     def epoch(x):
         return sum(1 for r0 in restarts if r0 < x)
@@ -410,21 +455,25 @@ def run(ctx: Ctx):
         ctx.audit(MODULES, OBLIGATIONS)
         if not quick:
             ctx.leanchecker(MODULES + ["IoraModel.Model.ThreadPool", "IoraModel.Lemmas.TpBase", "IoraModel.Lemmas.TpDefs", "IoraModel.Lemmas.TpLock",
-                                       "IoraModel.Lemmas.TpCount", "IoraModel.Lemmas.TpEff", "IoraModel.Lemmas.TpWorkers", "IoraModel.Lemmas.TpWorkersStep",
-                                       "IoraModel.Lemmas.TpMain", "IoraModel.Lemmas.TpQuiesce", "IoraModel.Lemmas.TpAll", "IoraModel.Lemmas.TpAfter", "IoraModel.Lemmas.TpRefuse",
-                                       "IoraModel.Lemmas.TpSize"])
+                                       "IoraModel.Lemmas.TpNoRestart", "IoraModel.Lemmas.TpCount", "IoraModel.Lemmas.TpEff", "IoraModel.Lemmas.TpCtl",
+                                       "IoraModel.Lemmas.TpCtlStep", "IoraModel.Lemmas.TpWorkers", "IoraModel.Lemmas.TpWorkersStep",
+                                       "IoraModel.Lemmas.TpQuiesce", "IoraModel.Lemmas.TpAll", "IoraModel.Lemmas.TpAfter", "IoraModel.Lemmas.TpRefuse",
+                                       "IoraModel.Lemmas.TpSize", "IoraModel.Lemmas.TpIds", "IoraModel.Lemmas.TpLive"])
     else:
         ctx.cov["obligations"] = len(OBLIGATIONS)
     hb = ctx.build_harness(HARNESS, sanitize=True, flags=[DETSCHED])
     hook = detect_hook(ctx)
     dist = {}
     stats = {"events": 0, "yields": 0, "steps_max": 0, "accepted": 0, "refused_d": 0, "refused_s": 0, "refused_f": 0, "idle_exits": 0,
-             "timeouts": 0, "spurious": 0, "hook_points": 0, "scheduling_samples": 0, "tasks_thrown": 0, "workers_peak_hist": {}}
+             "timeouts": 0, "spurious": 0, "hook_points": 0, "scheduling_samples": 0, "tasks_thrown": 0, "workers_peak_hist": {},
+             "restarts": 0, "restarts_refused": 0, "returns_stop_shutdown_dtor": 0, "already_shut_down_returns": 0, "cases_graceful": 0,
+             "cases_multi_controller": 0}
     if hb:
         # the implementation-only monitors run even when the proof layer is broken (DESIGN 5.2: search for the failing input)
         model_ok = bool(ok_build and ctx.model_argv("tp"))
         g = rng.fork("cases")
         n_corr = [0]
+        retry = []
 
         def evaluate(cases, results, answers):
             for c, r, ans in zip(cases, results, answers):
@@ -435,6 +484,23 @@ def run(ctx: Ctx):
                     # a directed witness schedule of another tree version (re-run below by seed) / a cut schedule that does not
                     # replay (the join order follows the hash of pthread_t values, which differ between processes): not a result
                     stats["replays_diverged"] = stats.get("replays_diverged", 0) + 1
+                    continue
+                if r.get("done") and r["done"].split()[1] == "steplimit" and any(" d=0" in l for l in c["lines"]):
+                    # drain(0) polls for up to one hour = 72 000 polls of the controller: the step budget of the exploration
+                    # (120 000 scheduling steps) ran out, which says nothing about the pool.  Machinery limit, not DEADLOCK; the
+                    # scenario is re-run with the same seed and a bounded drain so that its property monitors are still evaluated.
+                    stats["steplimit_drain0"] = stats.get("steplimit_drain0", 0) + 1
+                    if not c["cat"].startswith("bounded:"):
+                        retry.append(dict(c, lines=[re.sub(r"\bd=0\b", "d=30000", l) if l.startswith(("main ", "ctl ")) else l for l in c["lines"]],
+                                          cat="bounded:" + c["cat"]))
+                    continue
+                if (r.get("done") and r["done"].split()[1] == "steplimit" and c["cat"].startswith("tail:")
+                        and any(l.startswith("ctl ") for l in c["lines"]) and " sleep " in (r.get("report") or "")):
+                    # the adversarial completion of a cut schedule is UNFAIR by construction (lowest enabled thread first).  A
+                    # controller on the "already shut down" path polls _shutdownComplete without a bound (FC09a), so when it has a
+                    # lower thread id than the owner of the shutdown (or than the worker the owner waits for) the completion runs the
+                    # poller for ever.  Starvation produced by the exploration machinery, not a livelock of the pool: counted.
+                    stats["starved_tails"] = stats.get("starved_tails", 0) + 1
                     continue
                 fails = monitor(c, r)
                 # statistics (measured)
@@ -452,7 +518,23 @@ def run(ctx: Ctx):
                         elif s["res"] in "dsf":
                             stats["refused_" + s["res"]] += 1
                     nontrivial = any(s["res"] == "a" for s in m["subs"])
+                    codes = [code for code, _ in m["mlog"]]
+                    stats["restarts"] += codes.count(10)
+                    stats["restarts_refused"] += codes.count(11)
+                    stats["returns_stop_shutdown_dtor"] += sum(1 for x in codes if x in (4, 7, 8))
+                    # more than one shutdown()/stop() returned in the same epoch: a caller on the "already shut down" path
+                    ep, n47 = 0, {}
+                    for code, _ in sorted(m["mlog"], key=lambda z: z[1]):
+                        if code == 10:
+                            ep += 1
+                        elif code in (4, 7):
+                            n47[ep] = n47.get(ep, 0) + 1
+                    stats["already_shut_down_returns"] += sum(v - 1 for v in n47.values() if v > 1)
                     stats["workers_peak_hist"][str(m["seen"])] = stats["workers_peak_hist"].get(str(m["seen"]), 0) + 1
+                if c["lines"][0].split()[4] == "1":
+                    stats["cases_graceful"] += 1
+                if any(l.startswith("ctl ") for l in c["lines"]):
+                    stats["cases_multi_controller"] += 1
                 for f in evs:
                     if f[2] == "D" and f[1] == f[4]:
                         stats["idle_exits"] += 1
@@ -471,6 +553,9 @@ def run(ctx: Ctx):
                     report(ctx, hb, c, r, ans, fails, "property")
                     continue
                 if ans is None:
+                    continue
+                if r.get("truncated"):
+                    stats["traces_too_long_for_replay"] = stats.get("traces_too_long_for_replay", 0) + 1
                     continue
                 ctx.cov["traces_validated_against_impl"] += 1
                 # correspondence: header lines all `ok`, every event answered as the harness expects (`*` = no snapshot possible)
@@ -528,6 +613,8 @@ def run(ctx: Ctx):
             cases2.append(dict(c, run=" ".join(f[:5] + [",".join(ch[:cut])]), cat="tail:" + c["cat"]))
         if cases2:
             wave(cases2)
+        if retry:
+            wave(list(retry))
         if True:
             if not quick:
                 tsan_stress(ctx)
@@ -538,14 +625,18 @@ def run(ctx: Ctx):
     ctx.extra["not_proved"] = [
         "future readiness (P4, second half) is monitored on the real std::packaged_task, not modelled beyond `outcome` being set when the body ends",
         "liveness (every accepted task is eventually executed under a fair scheduler) is not stated; the safety half is P5b (a non-empty queue always has a guardian) plus deadlock detection in every DetSched run",
-        "start()/reset() (restart after stop) and setShutdownMode at run time are outside the model",
+        "restart (reset() + start() after stop()): the restart path IS modelled (Model/ThreadPool.lean rsL..kU), its source skeleton is tied by skel_restart, and every restarted run is replayed by the Lean acceptor and judged by epoch-aware P1/P2/P3/P6 monitors; but the theorems P1, P2, P3, P5b, P6, F are proved for Cfg.allowRestart = false only (reset() zeroes counters and clears _threads, which the conservation invariant does not survive as stated) — PARTIAL",
+        "setShutdownMode at run time is outside the model (the mode is a constructor argument in every generated case)",
+        "the destructor is run by thread 0 only; a destructor that starts while another thread is still inside shutdown() is outside the theorems (C++ object lifetime; the model logs code 13 and the generator joins the controllers first)",
     ]
     ctx.assumptions += [
         "ShutdownMode IMMEDIATE/GRACEFUL (DETACHED detaches instead of joining, its destructor returns while workers still use the object: excluded by hypothesis CfgOk.joined and not generated)",
-        "maxSize >= 1 (CfgOk.max) and, for P6, initialSize <= maxSize",
+        "no restart after stop() in the THEOREMS (CfgOk.norestart); restart is covered by the tie and the monitors only",
+        "any number of controller threads may call drain/stop/shutdown/submit concurrently (modelled, Cfg.ctls); only one thread (thread 0) destroys or restarts the pool, and not while another controller is inside a call",
         "no call on the pool is in flight on another thread when the destructor starts (C++ object lifetime); submitters are joined before `x`",
         "granularity: one step = one pthread operation + the code up to the next one (DetSched); atomics are pre-emption points only at IORA_VERIF_POINT(\"tp:popped\"); the theorems do not depend on _activeThreads/_busyThreads",
         "std::thread creation does not fail; tasks do nothing but submit/throw/return",
+        "the polling loops (drain, shutdown's waits, the wait for _shutdownComplete) make progress only under a fair scheduler; the adversarial completion of cut schedules is unfair by design, and a tail in which it starves the shutdown owner behind a polling controller ends at the step budget and is counted (`starved_tails`), not judged",
         "pthread mutex/condvar semantics, libstdc++ wait_for (time-out decided by the clock), std::packaged_task/future are modelled-not-verified",
     ]
     return ctx.finish(level="proof", rule="a case = one scripted scenario (config, task bodies, controller script, submitter scripts) + one DetSched schedule "
